@@ -2,6 +2,7 @@
 //!
 //!   zvtmon <ID> [--tier quick|thorough] [--seed N] [--replay FILE]
 
+mod build;
 mod c02;
 mod c04;
 mod c11;
@@ -44,31 +45,7 @@ impl Ctx {
     }
 }
 
-/// Run `f(shard_index, shard_report)` on `n` threads and merge the shard reports.
-pub fn sharded<F>(report: &mut Report, n: usize, f: F)
-where
-    F: Fn(usize, &mut Report) + Sync,
-{
-    let shards: Vec<Report> = std::thread::scope(|s| {
-        let handles: Vec<_> = (0..n)
-            .map(|i| {
-                let mut r = report.shard();
-                let f = &f;
-                std::thread::Builder::new()
-                    .stack_size(64 << 20)
-                    .spawn_scoped(s, move || {
-                        f(i, &mut r);
-                        r
-                    })
-                    .unwrap()
-            })
-            .collect();
-        handles.into_iter().map(|h| h.join().expect("harness shard panicked")).collect()
-    });
-    for r in shards {
-        report.merge(r);
-    }
-}
+pub use refcodec::evidence::sharded;
 
 fn main() {
     let argv: Vec<String> = std::env::args().collect();
